@@ -46,14 +46,14 @@ CLAIMED["C08"] = dict(
 CLAIMED["C09"] = dict(
     category="exploration",
     technique="exhaustive enumeration of permutations, paddings, splits and ordered subsets per model family; differential oracle against the original / directly built model",
-    text="For every model family all n! relabellings, every zero-mole padding position, every split and every ordered subset of component indices (with default and non-default option structs) are built as real models and compared with the original on several states, including the pure-component helper algorithms that work through Components::subset. Families with a spherical + chain SAFT-VR Mie mixture, SAFT-VRQ Mie components of different Feynman-Hibbs orders and an ePC-SAFT solvent whose permittivity table is given unsorted are included.",
+    text="For every model family all n! relabellings, every zero-mole padding position, every split and every ordered subset of component indices (with default and non-default option structs) are built as real models and compared with the original on several states, including the pure-component helper algorithms that work through Components::subset. Families with a spherical + chain SAFT-VR Mie mixture, SAFT-VRQ Mie components of different Feynman-Hibbs orders and an ePC-SAFT solvent whose permittivity table is given unsorted are included. Henry's law constants are compared under every permutation of systems with one or two solutes among two or three solvents.",
     design_ref="§5 C09",
 )
 
 CLAIMED["C10"] = dict(
     category="exploration",
     technique="bounded-exhaustive lattice enumeration (every contribution-selector getter x models x T x density ladder; every shipped ideal-gas record); sum-rule and re-implemented closed-form oracles",
-    text="Every getter that accepts a contribution selector is evaluated for IdealGas, Residual and Total on the whole lattice (sum rule, cancellation-aware scale), the ideal pressure is compared with rho R T in SI, residual properties are followed down the density ladder to 1e-12 eta_max, and the heat capacity obtained by differentiating the Helmholtz energy is compared with the DIPPR 100/107/127 and Joback correlations re-implemented in the harness for every shipped record plus synthetic 107/127 records, for mixtures and for ideal mixing.",
+    text="Every getter that accepts a contribution selector is evaluated for IdealGas, Residual and Total on the whole lattice (sum rule, cancellation-aware scale), the ideal pressure is compared with rho R T in SI, residual properties are followed down the density ladder to 1e-12 eta_max, and the heat capacity obtained by differentiating the Helmholtz energy is compared with the DIPPR 100/107/127 and Joback correlations re-implemented in the harness for every shipped record plus synthetic 107/127 records, for mixtures and for ideal mixing. Third-order ideal-gas getters (dc_v_dt, d2s_dt2) are compared with differences of the second-order ones; every single-component and ordered two-component Components::subset of a DIPPR and of a Joback mixture equals the ideal gas built from those records.",
     design_ref="§5 C10",
 )
 
@@ -120,7 +120,7 @@ CLAIMED["C12"] = dict(
     category="fault_enumeration",
     engine="deviation",
     technique="deviation-bounded exploration: every non-empty subset of a phase diagram's solver calls forced to fail through injection hooks (2^(n-1)-1 histories per diagram), plus an exhaustive guess lattice; differential oracle against the stand-alone solve",
-    text="Pure diagrams (4, 6, 9 points) and binary_vle / bubble- / dew-point lines (5-8 points) are re-run with every non-empty subset of their solver calls forced to fail by the H3 hooks: exactly the forced points must go missing and every surviving point must equal the undisturbed point, which in turn must equal the stand-alone solve without guess; nested numbers of points must share points; pure, bubble/dew and flash calculations are repeated over a lattice of pressure / temperature / composition guesses within a factor 3 and with cascade stages forced to fail, and compared with the result obtained without guess. Pure-component guesses include states AT the requested temperature that are not the solution (two phases at 0.8/0.95/1.05 p_sat, coarse-tolerance solutions). Mixture guesses are also enumerated at 0.97 and 0.99 of the lower critical temperature (guesses next to the solution only, since two dew points exist there).",
+    text="Pure diagrams (4, 6, 9 points) and binary_vle / bubble- / dew-point lines (5-8 points) are re-run with every non-empty subset of their solver calls forced to fail by the H3 hooks: exactly the forced points must go missing and every surviving point must equal the undisturbed point, which in turn must equal the stand-alone solve without guess; nested numbers of points must share points; pure, bubble/dew and flash calculations are repeated over a lattice of pressure / temperature / composition guesses within a factor 3 and with cascade stages forced to fail, and compared with the result obtained without guess. Pure-component guesses include states AT the requested temperature that are not the solution (two phases at 0.8/0.95/1.05 p_sat, coarse-tolerance solutions). Mixture guesses are also enumerated at 0.97 and 0.99 of the lower critical temperature (guesses next to the solution only, since two dew points exist there). Pure-component warm starts also come from states 2 and 4 times closer to T_c than the requested temperature (phase order checked).",
     design_ref="§5 C12, §4.3",
 )
 
